@@ -1,5 +1,6 @@
 import json
 props = {
+ "C17": ("H-DKV-LOW", "seeded generation of entry runs and WAL histories against a slice model, with the simulator owning the restart between write and read (reopen from JSON descriptor) and the Truncate-vs-writer interleaving; weakest fit for the technique, stated in DESIGN.md", "5.C17"),
  "C12": ("H-STORE", "seeded search over create/savepoint/ack sequences (duplicates, wrong ids, foreign senders) interleaved with the asynchronous publication goroutines and store restarts; oracle: reference checkpoint state machine + independent decoding of every published snapshot", "5.C12"),
  "C13": ("H-STORE", "seeded search over chains of completed checkpoints (ids on base64 alphabet boundaries) with a crash after any storage operation and overlapping asynchronous write/remove/notify steps; oracle: restart resumes from the highest id decodable in storage, newest snapshot never removed, retention notifications monotone", "5.C13"),
  "C10": ("H-TIMER", "seeded search over timer registration / watermark-advance / checkpoint+restore histories with cache sizes below the timer set, interleaved with the DB background tasks and crash points; oracle: reference set of pending timers (exactly-once, non-decreasing order)", "5.C10"),
